@@ -133,14 +133,31 @@ func VH_C12_Forms() {
 		ctx["a"+strconv.Itoa(j+1)] = v
 		av[j] = v
 	}
+	// the macro's name: an ordinary one, or one that is also the name of a built-in function, of a
+	// function or filter the application registered, of a test, or a keyword-like word
+	mname := []string{"m", "max", "min", "range", "length", "userfn", "upper", "defined", "block", "date"}[symChoice(10)]
+	symTag("macro-name:" + mname)
+	rename := func(t string) string {
+		t = vhReplace(t, " m(", " "+mname+"(")
+		t = vhReplace(t, ".m(", "."+mname+"(")
+		t = vhReplace(t, "import m ", "import "+mname+" ")
+		t = vhReplace(t, "import m%", "import "+mname+"%")
+		t = vhReplace(t, ", m as", ", "+mname+" as")
+		return t
+	}
+	lib := rename(vhC12Lib)
 	form := vhC12Forms[f]
 	pre := form.pre
 	if pre == "LIB" {
-		pre = vhC12Lib
+		pre = lib
+	} else {
+		pre = rename(vhReplace(pre, " %}", "% %}"))
+		pre = vhReplace(pre, "% %}", " %}")
 	}
-	main := pre + vhReplace(vhC12Sites[s], "%C", vhReplace(form.call, "%A", args))
+	main := pre + vhReplace(vhC12Sites[s], "%C", vhReplace(rename(form.call), "%A", args))
 	e := New()
-	e.RegisterString("lib", vhC12Lib)
+	e.AddFunction("userfn", func(a ...interface{}) (interface{}, error) { return "FUNCTION", nil })
+	e.RegisterString("lib", lib)
 	if err := e.RegisterString("main", main); err != nil {
 		symAssert(false, "template-parses")
 		return
